@@ -67,7 +67,7 @@ func nativeReplay(verifRoot string, rf *replayFile, path string) (string, string
 	ovPath := filepath.Join(tmp, "overlay.json")
 	os.WriteFile(ovPath, ovJSON, 0o644)
 	abs, _ := filepath.Abs(path)
-	cmd := exec.Command("go", "test", "-tags", "verif", "-vet=off", "-count=1", "-overlay", ovPath, "-run", "^TestVerifReplay$", "-v", "./"+rf.Dir)
+	cmd := exec.Command(goBin(), "test", "-tags", "verif", "-vet=off", "-count=1", "-overlay", ovPath, "-run", "^TestVerifReplay$", "-v", "./"+rf.Dir)
 	cmd.Dir = repoRoot
 	cmd.Env = append(goEnv(), "VERIF_REPLAY_FILE="+abs, "GOCACHE="+goCache())
 	out, _ := cmd.CombinedOutput()
@@ -98,7 +98,7 @@ func goCache() string {
 	if c := os.Getenv("GOCACHE"); c != "" {
 		return c
 	}
-	out, err := exec.Command("go", "env", "GOCACHE").Output()
+	out, err := exec.Command(goBin(), "env", "GOCACHE").Output()
 	if err == nil {
 		return strings.TrimSpace(string(out))
 	}
